@@ -59,6 +59,21 @@ chk("C19", "proof",
     "Coq proof over hand model; correspondence by vm_compute on enumerated trees x argument lists",
     "DESIGN.md section 4 C19")
 
+chk("C17", "proof",
+    "Proved (Coq, closed under the global context) over Model/Config.v and the rule table regenerated from every rule_*.py on every run "
+    "(ids, names, defaults, configuration items with types, defaults and validators): for every stack of layers a key has the value of the "
+    "most specific layer that mentions it (load order project file, default file, --config, --set); for every rule and every stack that "
+    "addresses it through one identifier, enabled = command line (disable before enable), else the most specific layer's boolean `enabled`, "
+    "else the default - and a non-boolean value there stops a strict run; renaming the identifier to any other identifier of the rule changes "
+    "neither the enabled state nor any setting; a wrongly typed or rejected value falls back to the default (lenient) or is a configuration "
+    "error (strict); no identifier belongs to two rules; every default is valid. Tied to the code by the translator and by evaluating the model "
+    "on every `plugins list`/`plugins info` run of an enumerated space (3^4 layer states x cli x identifiers x strict x file formats, present-but-"
+    "silent layers, mixed identifiers; every configuration item of every rule x in-range/out-of-range/wrong-type x lenient/strict).",
+    "Trusted: Coq kernel + vm_compute, translator rule_table.py, hand model of application_properties' flat map and getters (checked by "
+    "correspondence), in-process CLI driver. Outside the model: 4 opaque validators, string-list getters, extension settings.",
+    "Coq proof over hand model + translated rule table; correspondence by vm_compute on enumerated layer stacks",
+    "DESIGN.md section 4 C17")
+
 NOT_YET = {}
 
 
